@@ -280,6 +280,28 @@ pub fn run(cfg: &Cfg, rep: &mut Rep) {
             }
         }
     }
+    // totals around the binary and decimal thresholds a 64-bit shortcut could trip on, split as (week, ns of week) with the
+    // nanoseconds both below one week (canonical) and far above it
+    for tot in [1i128 << 63, 1i128 << 64, (1i128 << 64) - 1, 1_000_000_000_000_000_000, 10_000_000_000_000_000_000, NPC, 2 * NPC, 6 * NPC, 1i128 << 53, 1i128 << 62] {
+        for dlt in [-NS_W, -NS_D, -NS_S, -1i128, 0, 1, NS_S, NS_D, 3 * NS_D, 4 * NS_D, NS_W - 1, NS_W, NS_W + NS_D] {
+            let t = tot + dlt;
+            for s in SCALES {
+                i += 1;
+                if i % n != sh {
+                    continue;
+                }
+                let wk = t / NS_W;
+                check_tow(rep, wk as u32, (t % NS_W) as u64, s);
+                if wk >= 1 {
+                    check_tow(rep, (wk - 1) as u32, (t % NS_W + NS_W) as u64, s);
+                }
+                check_tow_of(rep, t, s);
+                if (t as u128) <= u64::MAX as u128 {
+                    check_tow(rep, 0, t as u64, s);
+                }
+            }
+        }
+    }
     for s in CTR {
         for &c in &nss {
             i += 1;
@@ -320,6 +342,12 @@ pub fn run(cfg: &Cfg, rep: &mut Rep) {
                     1 => *r.pick(&weeks),
                     _ => r.below(wmax as u64 + 1) as u32,
                 };
+                if r.chance(1, 6) {
+                    // random week with the nanoseconds placed so that the total lands next to 2^63 / 2^64 ns
+                    let tot = (if r.bool() { 1i128 << 63 } else { 1i128 << 64 }) + r.range_i128(-3 * NS_W, 3 * NS_W);
+                    let wk = r.range_i128(((tot - u64::MAX as i128).max(0) + NS_W - 1) / NS_W, tot / NS_W);
+                    check_tow(rep, wk as u32, (tot - wk * NS_W) as u64, s);
+                }
                 let ns = match r.below(4) {
                     0 => r.below(NS_W as u64),
                     1 => *r.pick(&nss),
